@@ -223,3 +223,48 @@ def in_scratch_cwd(method):
         finally:
             os.chdir(old)
     return wrapper
+
+
+VIRT = "/sfvfs"
+
+
+class MultiRootConnector(MiniConnector):
+    """one deployment, several locations, each with its OWN file system: every location has a private root directory and the virtual
+    prefix `/sfvfs` in command lines is rewritten to it (and back in captured output), so `/sfvfs/D/x` on loc0 and on loc1 are different
+    directories — as on distinct hosts of one deployment. Commands and stream commands run through `sh -c`."""
+
+    def __init__(self, deployment_name: str, root: str, locations: tuple[str, ...] = ("loc0", "loc1"), transferBufferSize: int = 2 ** 16):
+        super().__init__(deployment_name, "/", transferBufferSize, locations=locations)
+        self.root = os.path.realpath(root)
+        for n in locations:
+            os.makedirs(self.real_root(n), exist_ok=True)
+
+    def real_root(self, location_name: str) -> str:
+        return os.path.join(self.root, location_name)
+
+    def real(self, location_name: str, virtual_path: str) -> str:
+        return virtual_path.replace(VIRT, self.real_root(location_name), 1)
+
+    async def run(self, location, command, environment=None, workdir=None, stdin=None, stdout=asyncio.subprocess.STDOUT,
+                  stderr=asyncio.subprocess.STDOUT, capture_output=False, timeout=None, job_name=None):
+        real = self.real_root(location.name)
+        self.commands.append((f"run@{location.name}", list(command)))
+        cmd = " ".join(command).replace(VIRT, real)
+        proc = await asyncio.create_subprocess_exec("sh", "-c", cmd, stdin=asyncio.subprocess.DEVNULL,
+                                                    stdout=asyncio.subprocess.PIPE, stderr=asyncio.subprocess.STDOUT)
+        out, _ = await asyncio.wait_for(proc.communicate(), timeout or 120)
+        if capture_output:
+            return out.decode("utf-8", "replace").strip().replace(real, VIRT), proc.returncode
+        return None
+
+    async def get_stream_reader(self, command, location):
+        self.commands.append((f"reader@{location.name}", list(command)))
+        return SubprocessStreamReaderWrapperContextManager(
+            coro=asyncio.create_subprocess_exec("sh", "-c", " ".join(command).replace(VIRT, self.real_root(location.name)),
+                                                stdin=asyncio.subprocess.DEVNULL, stdout=asyncio.subprocess.PIPE, stderr=asyncio.subprocess.DEVNULL))
+
+    async def get_stream_writer(self, command, location):
+        self.commands.append((f"writer@{location.name}", list(command)))
+        return SubprocessStreamWriterWrapperContextManager(
+            coro=asyncio.create_subprocess_exec("sh", "-c", " ".join(command).replace(VIRT, self.real_root(location.name)),
+                                                stdin=asyncio.subprocess.PIPE, stdout=asyncio.subprocess.DEVNULL, stderr=asyncio.subprocess.DEVNULL))
